@@ -137,3 +137,28 @@ func VH_C14_shutdown() {
 	}
 	verifReach("C14.shutdown.three", n == 3)
 }
+
+// an association whose writes to the target fail still gets a read deadline, so that it is
+// reclaimed like any other
+func VH_C14_write_failure() {
+	verifResetNet()
+	cl, specs, _ := verifMakeList(1, 1, false)
+	key := verifKey(specs[0].cipher, verifSecrets[specs[0].secret])
+	um := &verifUDPMetrics{}
+	h := NewPacketHandler(defaultNatTimeout, cl, um, nil)
+	client := &verifPacketConn{name: "client"}
+	verifReplyScript = func(i int, pc *verifPacketConn) { pc.writeErr = errVerifFault }
+	n := 1 + verifChoice("datagrams", 2)
+	for i := 0; i < n; i++ {
+		client.reads = append(client.reads, verifRead{data: verifPack(key, verifSocksV4([]byte{93, 184, 216, 34}, 443, []byte("x"))), addr: verifClientAddrs[0]})
+	}
+	h.Handle(client)
+	verifQuiesce()
+	verifAssert("C14.write-failure.association-created", len(verifTargets) == 1 && len(um.entries) == 1)
+	if len(verifTargets) == 1 {
+		// one deadline from the failed write itself, one more when the listener shut down
+		verifAssert("C14.write-failure.deadline-armed", len(verifTargets[0].deadlines) >= 2)
+		verifAssert("C14.write-failure.reported", len(um.entries[0].fromClient) == n && um.entries[0].fromClient[0].status == "ERR_WRITE")
+	}
+	verifReach("C14.write-failure.done", true)
+}
